@@ -236,6 +236,9 @@ pub fn check_link(case: &LinkCase) -> CaseResult {
         if matches!(case.target_kind.as_str(), "dir" | "file") {
             let _ = v.chmod(&l, 0o777);
             let _ = v.chmod_b(&l).and_then(|b| b.sym("a:a+rwx").exec());
+            // both an octal and a symbolic mode on one builder
+            let _ = v.chmod_b(&l).and_then(|b| b.all(0o701).sym("a:o+w").exec());
+            let _ = v.chmod_b(&l).and_then(|b| b.sym("a:g+w").files(0o602).dirs(0o703).exec());
             if v.mode(&t).ok() != before_mode {
                 return Err(fail("chmod-on-link|target-mode-changed", format!("{:?} -> {:?}", before_mode, v.mode(&t).ok())));
             }
@@ -272,6 +275,7 @@ pub fn check_link(case: &LinkCase) -> CaseResult {
                 return Err(fail("chmod-recursive-over-link|target-mode-changed", format!("{:?} -> {:?}", before_mode, v.mode(&t).ok())));
             }
             let _ = v.chmod_b(&ldir).and_then(|b| b.sym("a:o+w").exec());
+            let _ = v.chmod_b(&ldir).and_then(|b| b.all(0o701).sym("a:o+w").exec());
             if v.mode(&t).ok() != before_mode {
                 return Err(fail("chmod-recursive-over-link|target-mode-changed", format!("{:?} -> {:?}", before_mode, v.mode(&t).ok())));
             }
